@@ -469,6 +469,14 @@ func TestVerifBoundedLifecycle(t *testing.T) {
 		if !lcCheck("recover", node, suffix, keys, svcs, aka, lcCommit(u3), lcCommit(r1), false) {
 			return
 		}
+		// ---- the re-used key is refused also when the request asks for another hash algorithm than the
+		// commitment it reveals was made with (algorithm migration)
+		if err := c.UpdateDID(did, update.WithSigner(u3), update.WithNextUpdatePublicKey(u3.key), update.WithOperationCommitment(lcCommit(u3)),
+			update.WithAddService(lcSvc("s11")), update.WithMultiHashAlgorithm(19)); err == nil {
+			lcFail("refuse.reuse-migration", "update that re-uses the signing key as next update key (sha2-512 requested, sha2-256 revealed) was built")
+			return
+		}
+		cases++
 		// ---- update after recovery
 		u4code := uint(18)
 		if run%2 == 0 {
